@@ -290,14 +290,25 @@ impl Run {
             if let Some((bytes, _reason)) = fail {
                 nfail += 1;
                 // re-evaluate the minimal input to obtain the structured failure
-                match f(&bytes) {
-                    Outcome::Fail(fl) => {
+                // a failure that does not show on every evaluation of the same input (order of a randomly
+                // seeded container inside complgen) is still a failure: try a few more times
+                let mut again = f(&bytes);
+                let mut tries = 1;
+                while !matches!(again, Outcome::Fail(_)) && tries < 40 {
+                    again = f(&bytes);
+                    tries += 1;
+                }
+                match again {
+                    Outcome::Fail(mut fl) => {
+                        if tries > 1 {
+                            fl.msg = format!("{} [not on every evaluation of this input: seen after {tries} tries]", fl.msg);
+                        }
                         let size = |b: &Vec<u8>| (b.iter().filter(|x| **x != 0).count(), b.len());
                         if best.as_ref().map(|(b, _)| size(&bytes) < size(b)).unwrap_or(true) {
                             best = Some((bytes, fl));
                         }
                     }
-                    _ => self.broken.push(format!("{part}: shrunk input did not reproduce")),
+                    _ => self.broken.push(format!("{part}: shrunk input did not reproduce (bytes {}; failure seen while shrinking: {})", hex(&bytes), _reason)),
                 }
             }
         }
